@@ -18,7 +18,10 @@ def build(ctx):
     shapes = [()] + [s for n in (1, 2, 3) for s in itertools.product((8, 12, 16), repeat=n) if sum(s) <= 28]
     if not thorough:
         shapes = [s for s in shapes if len(s) <= 1 or s in ((8, 8), (8, 16), (16, 12), (12, 12), (8, 8, 8), (8, 12, 8), (12, 8, 8), (16, 8))]
-    for sh in shapes:
+    shapes36 = [()] + [s_ for n_ in (1, 2, 3) for s_ in itertools.product((8, 12), repeat=n_) if sum(s_) <= 32]
+    if not thorough:
+        shapes36 = [s_ for s_ in shapes36 if len(s_) <= 1 or s_ in ((8, 12), (12, 12), (12, 12, 8), (8, 8, 12))]
+    for sh, ring in [(s_, 32) for s_ in shapes] + [(s_, 36) for s_ in shapes36]:
         nq = len(sh)
         q = list(sh) + [8] * (3 - nq)
         for la in range(nq + 1):
@@ -31,15 +34,15 @@ def build(ctx):
                     continue
                 if not thorough and op in (1, 5) and nq >= 2:
                     continue
-                for rfix in ([None] if op <= 8 else ([0, 12, 20, 28] if not thorough else list(range(0, 32, 4)))):
-                    defs = ["-DNQ=%d" % nq, "-DLA=%d" % la, "-DOP=%d" % op, "-DQ0=%d" % q[0], "-DQ1=%d" % q[1], "-DQ2=%d" % q[2]] + (["-DRFIX=%d" % rfix] if rfix is not None else [])
-                    name = "q%s-la%d-op%d%s" % ("_".join(map(str, sh)) or "empty", la, op, "-r%d" % rfix if rfix is not None else "")
+                for rfix in ([None] if op <= 8 else ([0, 12, 20, ring - 4] if not thorough else list(range(0, ring, 4)))):
+                    defs = ["-DNQ=%d" % nq, "-DLA=%d" % la, "-DOP=%d" % op, "-DQ0=%d" % q[0], "-DQ1=%d" % q[1], "-DQ2=%d" % q[2]] + (["-DRFIX=%d" % rfix] if rfix is not None else []) + (["-DMAXMSG=12", "-DNMSG=3"] if ring == 36 else [])
+                    name = "%sq%s-la%d-op%d%s" % ("R36" if ring == 36 else "", "_".join(map(str, sh)) or "empty", la, op, "-r%d" % rfix if rfix is not None else "")
                     qq = ctx.add(vlib.Query(name, ["@IR@"] + rt, defines=defs, unwind=40, objbits=12, unwindset=["rtosc_message_ring_length.%d:10" % k for k in range(8)] + ["bundle_ring_length.0:4"], native_sources=[h], native_cxx=True, native_flags=inc + defs,
                                             native_lib_exclude=["thread-link.cpp"],
-                                            descr={"queued message sizes": list(sh), "lookahead has seen": la, "operation": OPS[op], "read index": "symbolic (any multiple of 4 in the ring)" if rfix is None else rfix,
+                                            descr={"ring bytes": ring, "queued message sizes": list(sh), "lookahead has seen": la, "operation": OPS[op], "read index": "symbolic (any multiple of 4 in the ring)" if rfix is None else rfix,
                                                    "payloads": "symbolic"}))
                     qq.prepare = (lambda name_, defs_: (lambda q_: q_.sources.__setitem__(0, ctx.ir_translate(name_, h, cxx=True, defines=inc + defs_))))(name, defs)
-    ctx.bounds = {"ring": "32 bytes, MaxMsg 16", "queue": "0..3 framed messages of 8/12/16 bytes (all fillings that fit)", "read index": "all positions", "operations": "one step from every such state"}
+    ctx.bounds = {"ring": "32 bytes (MaxMsg 16 x 2) and 36 bytes (MaxMsg 12 x 3, not a power of two)", "queue": "0..3 framed messages of 8/12/16 bytes (all fillings that fit)", "read index": "all positions", "operations": "one step from every such state"}
     ctx.assumptions = ["representation invariant of the pre-state: indices are multiples of 4 inside the ring, queued messages are complete OSC messages laid out from the read index, the lookahead index lies on a message boundary between read and write",
                        "sequential consistency; ONE thread at a time: interleavings of writer and reader inside an operation are NOT explored by this check"]
     ctx.stubs = ["C++ runtime: stubs/cxxrt.c (operator new as typed pool)"]
